@@ -620,8 +620,9 @@ def _run_gateway(ctx):
         for absent in ("", None, "None"):
             ok, g0 = ctx.call("absent-decodes-none", lambda: Gateway.from_json(absent))
             if ok:
-                ctx.chk("absent-decodes-none", g0 is not None and g0.lab is None and g0.gateway is None and
-                        g0.subnet is None and g0.mac is None, f"from_json({absent!r}).lab={getattr(g0, 'lab', '?')}")
+                # "read back as absent": like every other from_json (an empty Gateway object used to come back
+                # here; that was the C02 defect 'absent-reads-as-empty-object/gateway', repaired in the repository)
+                ctx.chk("absent-decodes-none", g0 is None, f"from_json({absent!r}) -> {g0!r}")
         return
     kw = dict(case["other"])
     if fam in ("v4", "both"):
